@@ -1110,14 +1110,22 @@ impl Replayer {
             }
             "ObsPropose" => {
                 let kind = s(args, "kind").to_string();
-                let arg = u(args, "arg");
+                let arg = args.get("arg").and_then(|a| a.as_u64()).unwrap_or(0);
                 let kp = if kind == "add" { Some(self.w.kps[arg as usize - 1].msg.clone()) } else { None };
                 let o = self.observer.as_mut().expect("observer exists");
                 let g = o.group.as_mut().expect("observer group");
                 let before: Vec<Vec<u8>> = g.get_cached_proposals().iter().map(|c| c.proposal_ref().as_slice().to_vec()).collect();
                 let pad = format!("ad-p{}", u(args, "prop")).into_bytes();
                 let pad2 = pad.clone();
-                let r = catch_unwind(AssertUnwindSafe(|| match kp { Some(k) => g.propose_add(k, pad2.clone()), None => g.propose_remove(arg as u32, pad2.clone()) }));
+                let prop_no = u(args, "prop");
+                let psk_id = args.get("arg").and_then(|a| a.as_str()).unwrap_or("").to_string();
+                let r = catch_unwind(AssertUnwindSafe(|| match (kind.as_str(), kp) {
+                    (_, Some(k)) => g.propose_add(k, pad2.clone()),
+                    ("gce", _) => g.propose_group_context_extensions(gce_list(prop_no), pad2.clone()),
+                    ("custom", _) => g.propose_custom(custom_proposal(prop_no), pad2.clone()),
+                    ("psk", _) => g.propose_external_psk(mls_rs::psk::ExternalPskId::new(psk_id.as_bytes().to_vec()), pad2.clone()),
+                    _ => g.propose_remove(arg as u32, pad2.clone()),
+                }));
                 match r {
                     Ok(Ok(m)) => {
                         let new_ref = g.get_cached_proposals().iter().map(|c| c.proposal_ref().as_slice().to_vec()).find(|r| !before.contains(r)).unwrap_or_default();
